@@ -13,7 +13,8 @@ PROPERTY_ID = "C03"
 RULE = ("A Hypothesis RuleBasedStateMachine generates histories over one circuit workspace. Mutation rules: add an operation "
         "(any kind, relation of any type to an earlier top-level item), add a prepared sub-circuit (nested, with fixed or "
         "registry-provided repetition count), apply_modifiers(), flatten(), DurationRegistry.set_registry_at, "
-        "RepetitionRegistry.set_registry_at, enter / leave temporary_override_get_registry_at. Observation rules: read "
+        "RepetitionRegistry.set_registry_at, enter / leave temporary_override_get_registry_at; a prepared sub-circuit may itself be "
+        "observed (listed, timed, plotted, exported, copied) before it is nested. Observation rules: read "
         "operations, duration, all start/end times, acquisition indices (all three filters), to_stim, plot_circuit (compact "
         "and full), circuit_structure.copy() and an unrolled copy. Every step is recorded as plain data. Oracle "
         "(differential): whenever a mutation follows an observation, and at the end, two twins are built from the mutation "
@@ -52,6 +53,7 @@ class Workspace:
         self.stack = contextlib.ExitStack()
         self.depth = 0
         self.unrolled = False
+        self.live = False            # only the live workspace performs the observations recorded inside mutation steps
 
     def close(self):
         self.stack.close()
@@ -81,6 +83,9 @@ class Workspace:
         elif op == "add_sub":
             b = self._built()
             sub = P.build({"top": step["circ"], "dreg": {}}, built=b)
+            if self.live and step.get("pre_obs"):
+                # observe the prepared sub-circuit before it is nested (an observation, skipped by the twins)
+                self._observe(sub.circuit, step["pre_obs"])
             self.handles.append(self.circuit.add(sub.circuit))
         elif op == "unroll":
             self.circuit = self.circuit.apply_modifiers()
@@ -104,9 +109,11 @@ class Workspace:
             raise ValueError(op)
 
     def observe(self, what: str):
+        self._observe(self.circuit, what)
+
+    def _observe(self, c, what: str):
         from qce_circuit.addon_stim.factory_manager import to_stim
         from qce_circuit.structure.intrf_acquisition_operation import AcquisitionTag
-        c = self.circuit
         if what == "operations":
             c.operations
         elif what == "duration":
@@ -175,6 +182,7 @@ class Runner:
         self.ctx = ctx
         self.steps: List[Dict[str, Any]] = []
         self.live = Workspace()
+        self.live.live = True
         self.observed_since_compare = False
         self.compares = 0
         self.finished = False
@@ -189,6 +197,8 @@ class Runner:
             return
         with self.ctx.lib(f"mutate {step['op']}"):
             self.live.mutate(step)
+        if step.get("pre_obs"):
+            self.observed_since_compare = True
         if self.observed_since_compare:
             self.compare("after " + step["op"])
 
@@ -253,14 +263,15 @@ class Runner:
         ops = [s["op"] for s in self.steps]
         between = False
         for i, s in enumerate(self.steps):
-            if s["op"] == "obs":
-                before = [t["op"] for t in self.steps[:i] if t["op"] in MUTATIONS]
+            if s["op"] == "obs" or s.get("pre_obs"):
+                before = [t["op"] for t in self.steps[:i + (1 if s.get("pre_obs") else 0)] if t["op"] in MUTATIONS]
                 after = [t["op"] for t in self.steps[i + 1:] if t["op"] in MUTATIONS]
                 if before and after and (set(before) | set(after)) & STRONG:
                     between = True
         classes = [f"len>=10={len(self.steps) >= 10}", f"obs_between={between}"]
         classes += [f"has:{k}" for k in sorted(set(ops) & STRONG)]
         classes += [f"obs:{w}" for w in sorted({s['what'] for s in self.steps if s['op'] == 'obs'})]
+        classes += [f"observed_sub_before_nesting={any(s.get('pre_obs') for s in self.steps)}"]
         self.ctx.case(self.steps, nontrivial=between, classes=classes)
         if not env.global_lookup_restored():
             env.force_restore_global_lookup()
@@ -331,9 +342,12 @@ def make_machine(ctx, last):
             self._do({"op": "obs", "what": what})
             self._do({"op": "add_op", "item": item})
 
-        @rule(circ=sub_strategy())
-        def add_sub(self, circ):
-            self._do({"op": "add_sub", "circ": circ})
+        @rule(circ=sub_strategy(), pre_obs=st.sampled_from([None, None, "operations", "times", "plot", "stim", "copy", "duration"]))
+        def add_sub(self, circ, pre_obs):
+            step = {"op": "add_sub", "circ": circ}
+            if pre_obs:
+                step["pre_obs"] = pre_obs
+            self._do(step)
 
         @rule()
         def unroll(self):
